@@ -161,6 +161,9 @@ class AutomatonProbe(object):
 
 # ---- label construction -------------------------------------------------------------------
 
+ROOT_DECORATED = [0]
+
+
 def make_label(rng, cat, sep, allow):
     gf = rng.choice(['', '', 'SB', 'HD', 'OA', 'MO',
                      # several function tags: everything after the first
@@ -174,7 +177,8 @@ def make_label(rng, cat, sep, allow):
     return lab, [cat, gf, gap, co, head]
 
 
-def make_bank(rng, fmt, decorated, sep, quick=True, unispace=True, big=False):
+def make_bank(rng, fmt, decorated, sep, quick=True, unispace=True, big=False,
+              root_label=False):
     words = rng.choice([gen.WORDS_ASCII, gen.WORDS_ASCII + gen.PUNCT[:8]
                         + gen.COMMA, gen.WORDS_ASCII + gen.WORDS_NONASCII
                         + gen.WORDS_BEYOND_LATIN1,
@@ -229,6 +233,15 @@ def make_bank(rng, fmt, decorated, sep, quick=True, unispace=True, big=False):
                 lab, parts = make_label(rng, node['l'], sep, decorated)
                 node['l'] = lab
                 node['x'] = {'parts': parts}
+        if root_label and fmt in ('brackets', 'discobrackets') \
+                and decorated and rng.random() < 0.3:
+            # the outermost bracket carries a label like any other: a
+            # sentence category with its function tag
+            lab, parts = make_label(rng, rng.choice(['S', 'SINV', 'FRAG']),
+                                    sep, decorated)
+            t['root']['l'] = lab
+            t['root']['x'] = {'parts': parts}
+            ROOT_DECORATED[0] += 1
         bank.append(t)
     return bank
 
@@ -575,7 +588,8 @@ def draw_case(rng, fmt, quick):
     if fmt == 'tigerxml' and rng.random() < 0.4:
         case['encoding_argument'] = rng.choice(['utf-8', 'latin-1', 'ascii'])
     big = rng.random() < 0.012
-    case['bank'] = make_bank(rng, fmt, decorated, sep, quick, big=big)
+    case['bank'] = make_bank(rng, fmt, decorated, sep, quick, big=big,
+                             root_label=True)
     case['big'] = big
     if eo.get('emptypos'):
         for sp in case['bank']:
@@ -997,6 +1011,9 @@ def shard(ctx):
     finally:
         R.treeinput.io = fake.real
     ctx.hook('automaton states probed', pr.count)
+    if ROOT_DECORATED[0]:
+        ctx.stratum('outermost bracket with a decorated label',
+                    ROOT_DECORATED[0])
     for p in sorted(pr.pairs):
         ctx.add('automaton_pairs', '%s/%s' % p)
 
